@@ -215,6 +215,9 @@ type TxOpts struct {
 	MaxIn    int
 	MaxOut   int
 	FeeMax   int64
+	// Parent, when set (and CSV is active in the family), lets RandomTx give inputs BIP68 relative locks that
+	// are satisfied exactly at the boundary in a block built on Parent (height- and time-based).
+	Parent *refchain.Block
 }
 
 // RandomTx builds and signs a transaction spending 1..MaxIn of the given coins (chosen at random)
@@ -244,6 +247,23 @@ func (g *Gen) RandomTx(r *mon.Rand, avail []Spendable, o TxOpts) (*wire.MsgTx, [
 		seq := uint32(0xffffffff)
 		if o.Sequence != 0 {
 			seq = o.Sequence
+		} else if o.Parent != nil && g.Witness && o.LockTime == 0 && r.Chance(1, 3) {
+			hc := avail[i].Coin.Height
+			newHeight := o.Parent.Height + 1
+			if hc >= 1 && hc <= o.Parent.Height {
+				if r.Bool() {
+					if n := newHeight - hc; n >= 0 && n <= 0xffff {
+						seq = uint32(n) // height-based lock met exactly at this height
+						tx.Version = 2
+					}
+				} else if anc := o.Parent.Ancestor(hc - 1); anc != nil {
+					units := (o.Parent.MTP() - anc.MTP()) / 512
+					if units >= 0 && units <= 0xffff {
+						seq = 1<<22 | uint32(units) // time-based lock met exactly at the parent's median time
+						tx.Version = 2
+					}
+				}
+			}
 		}
 		tx.AddTxIn(&wire.TxIn{PreviousOutPoint: avail[i].Op, Sequence: seq})
 		prev = append(prev, avail[i].Coin)
@@ -568,8 +588,10 @@ func (g *Gen) Block(r *mon.Rand, parent *refchain.Block, o BlockOpts) *refchain.
 				ntx = r.Intn(g.MaxTx + 1)
 			}
 			avail := g.Mature(g.Wallet(parent), height)
+			topts := o.TxOpts
+			topts.Parent = parent
 			for t := 0; t < ntx && len(avail) > 0; t++ {
-				tx, used, fee := g.RandomTx(r, avail, o.TxOpts)
+				tx, used, fee := g.RandomTx(r, avail, topts)
 				if tx == nil {
 					break
 				}
